@@ -89,6 +89,10 @@ func runC09(c *mon.Ctx) {
 		for _, variant := range worldVariants {
 			worlds = append(worlds, newWorld(r, ver, variant, nPL))
 		}
+		// (0) directed: a join under a public join rule whose content has, behind the real members, members that only look
+		// like membership / join_authorised_via_users_server (U+017F for 's'; "Membership"): the rules read the real ones,
+		// and so does whoever works out which state the event needs - the verdict on exactly that state is the verdict
+		c09LookalikeJoin(c, worlds[0])
 		// (1) single-evaluation metamorphic relations
 		for _, w := range worlds {
 			for k := 0; k < perWorld; k++ {
@@ -191,6 +195,32 @@ func runC09(c *mon.Ctx) {
 								c.Count("relation|foreign-room-event-in-filled-slot")
 								if pan == "" && v != "reject" {
 									c.Failf("foreign-room-auth-event:accepted:"+name, "v%s %s event is allowed although the provider was given %s (%s %q) of room %s, %s\nevent: %s\nstate as supplied: %v", ver, ac.kind, foreign.EventID(), foreign.Type(), *foreign.StateKey(), foreign.RoomID().String(), name, ac.ev.JSON(), describeState(st))
+								}
+							}
+							// a provider that once held the foreign event in a slot which the room's own event then took over, cleared
+							// and filled with the room's state again, is a provider holding the room's state: the verdict of a fresh
+							// one (tenth seeding round, C09-T: Clear forgot only the rooms of the events it still held)
+							base, bpan := freshVerdict(ac.state, ac.ev)
+							if bpan == "" {
+								var hv string
+								_, _, hpan := mon.Guard(func() {
+									prov, err := gmsl.NewAuthEvents(nil)
+									if err != nil {
+										panic("harness: " + err.Error())
+									}
+									_ = prov.AddEvent(foreign)
+									for _, p := range ac.state {
+										_ = prov.AddEvent(p)
+									}
+									prov.Clear()
+									for _, p := range ac.state {
+										_ = prov.AddEvent(p)
+									}
+									hv = verdictStr(gmsl.Allowed(ac.ev, prov, userIDForSender))
+								})
+								c.Count("relation|provider-cleared-after-a-foreign-event-was-overwritten")
+								if !hpan && hv != base {
+									c.Failf("provider-history:cleared-provider-remembers-a-foreign-room", "v%s %s event: a fresh provider with the room's state says %s; a provider that held an event of room %s in a slot the room's own event then took over, was cleared and refilled says %s", ver, ac.kind, base, foreign.RoomID().String(), hv)
 								}
 							}
 						}
@@ -533,4 +563,44 @@ func reuseSig(kind, prevKind, fresh string, state []gmsl.PDU) string {
 		return "reuse:self-membership-verdict-differs:" + fresh + "-on-its-own"
 	}
 	return "reuse:verdict-differs:" + kind + ":" + fresh + "-on-its-own"
+}
+
+func c09LookalikeJoin(c *mon.Ctx, w *world) {
+	if c.Shard != 0 {
+		return
+	}
+	for _, u := range authUsers[1:3] {
+		for _, look := range []*ref.Value{
+			ref.O("membership", ref.S("join"), "member\u017fhip", ref.S("leave")),
+			ref.O("membership", ref.S("join"), "Membership", ref.S("leave")),
+			ref.O("membership", ref.S("join"), "member\u017fhip", ref.S("leave"), "join_authori\u017fed_via_users_server", ref.S(authUsers[0])),
+			ref.O("membership", ref.S("leave"), "member\u017fhip", ref.S("join")),
+		} {
+			ev, err := w.build("m.room.member", strp(u), u, look, nil, "")
+			if err != nil {
+				continue
+			}
+			full := []gmsl.PDU{w.create, w.pls[0], w.jrs["public"], w.members[[2]string{authUsers[0], "join"}], w.members[[2]string{u, "leave"}]}
+			name := fmt.Sprintf("meta:%s:lookalike-join:%s", w.ver, gen.Describe(look))
+			c.Case(name, map[string]any{"version": w.ver, "event": string(ev.JSON()), "state": describeState(full)}, func() {
+				c.Nontrivial(name)
+				needed := map[gmsl.StateKeyTuple]bool{}
+				for _, tup := range gmsl.StateNeededForAuth([]gmsl.PDU{ev}).Tuples() {
+					needed[tup] = true
+				}
+				var only []gmsl.PDU
+				for _, p := range full {
+					if needed[gmsl.StateKeyTuple{EventType: p.Type(), StateKey: *p.StateKey()}] {
+						only = append(only, p)
+					}
+				}
+				a, pa := freshVerdict(full, ev)
+				b, pb := freshVerdict(only, ev)
+				c.Count("relation|lookalike-join:needed-state-only")
+				if pa == "" && pb == "" && a != b {
+					c.Failf("verdict-depends-on:needed-state-only:lookalike-members", "v%s: a member event with content %s is judged %s on the room's state and %s on exactly the state StateNeededForAuth names (%d of %d events)", w.ver, gen.Describe(look), a, b, len(only), len(full))
+				}
+			})
+		}
+	}
 }
